@@ -1,44 +1,55 @@
 # bin/check configuration of property C19 (a single dict expression)
 {'harness': 'c19',
  'props': 'Props/C19.v',
- 'models': ['Model/Time.v'],
- 'trusted': ['textual parsing and formatting (times.SmartParse, time.Parse, time.Format, strconv) are not '
-             'modelled: the model starts from the abstract parse result (time value + has-zone flag) the '
-             'harness obtains by calling the same parser, and ends at the projected output (wall reading, '
-             'printed offset, number) the harness reads back with time.Parse(RFC3339)',
-             'zone behaviour (offset in force at an instant, offset time.Date settles on for a wall reading) '
-             "is universally quantified in the theorems (Section variables) and supplied per case from Go's "
-             'time package for the correspondence',
-             'int64 arithmetic of datetime.go is written with explicit wrap-around (wrap64); Go / and % as '
-             'Z.quot / Z.rem; time.Unix normalisation transcribed from the Go source',
-             'the property oracle (same instant / same wall reading / exact Unix time) is evaluated on the '
-             'Go side with time.Date, Time.In, Time.ZoneBounds and math/big',
-             'schema-level stream: the four functions called through xml/json/csv schemas (custom_func '
-             'directly and through a template) with lenient (ignore_error) and strict members side by side '
-             'in both name orders on valid / empty / unparsable values; every member must behave as the '
-             'function called on its own (Model: member_outcome / record_outcome; theorem '
-             'unparsable_strict_member_fails_record); epoch strings are decimal only (zero-padded, signed, '
-             '0x/0b/0o/_ forms)',
-             'round-4 classes: ONE Schema with 2..4 transforms (sequential and alive at once) whose zone / '
-             "unit arguments come from each transform's own ExternalProperties; explicit layouts with zone "
-             'abbreviations (MST, RFC1123, UnixDate ...) checked against time.Parse(layout, text) as '
-             'documented, for every layoutTZ flag / layout combination (flag true: fromTZ ignored; flag '
-             "false: the text's wall reading is bound to fromTZ else toTZ); one object with 64 distinct "
-             '(fromTZ, toTZ) members on one node. Not covered: collisions of a 32-bit declaration digest '
-             'between two particular declarations (C19-r43) - found only by luck at this level; the id '
-             'source is pinned elsewhere (extractor)'],
- 'assumptions': ['minute_aligned: the instant read back from RFC3339 text equals the input instant only '
-                 'where the zone offset is a whole number of minutes (known finding F23: sub-minute '
-                 'local-mean-time offsets; rfc3339_same_instant_refuted). Outside that guard nothing is '
-                 "skipped: rfc3339_within_seconds_part proves, and the harness checks against Go's own "
-                 't.In(loc).Format(time.RFC3339), that the printed reading is exact, the printed offset is '
-                 'the zone offset with its seconds part cut off toward zero (sign, hours, minutes kept) and '
-                 'the instant denoted is off by that seconds part only (< 60 s); zones/eras with offsets '
-                 'strictly between -01:00 and 00:00 are taken from a scan of the installed zone database',
-                 'wall reading of the result within years 1..9999 (known finding: year 10000 is printed with '
-                 'five digits)',
+ 'models': ['Model/Int64.v', 'Model/Time.v'],
+ 'trusted': ['EXTRACTED on every run (Gen/DateTime.v, harness/cmd/extract/gen_time.go, from '
+             'customfuncs/datetime.go): the two zone steps of parseDateTime (guards, OverwriteTZ/ConvertTZ, '
+             'where hasTZ is set), the unit strings SECOND / MILLISECOND, the arithmetic expression of each '
+             'unit in DateTimeToEpoch and EpochToDateTimeRFC3339 translated into int64-with-wrap-around '
+             'terms (to_epoch_expr / from_epoch_expr), base 10 of FormatInt/ParseInt, the default zone UTC; '
+             'Model/Time.v is defined over these, so every theorem is about the source as it is now; an '
+             'unrecognised shape makes the extraction fail and with it only Props/C19.v',
+             'PROVED (all instants of years 1..9999, all zone behaviours - off_of_instant / off_of_wall are '
+             'universally quantified): epoch_seconds_exact, epoch_millis_exact (no int64 wrap; = '
+             'floor(ns/10^6)), from_epoch_exact (negative counts included), epoch_roundtrip, '
+             'epoch_roundtrip_inverse, epoch_functions_invert; parse_date_time_is_decision_table / '
+             'layout_path_decision_table (the transcribed parseDateTime = the documented table for '
+             'zone-in-input or layoutTZ x fromTZ/toTZ empty, blank, unloadable, zone); tz_logic_instant / '
+             'tz_logic_wall / tz_logic_bind; rfc3339_same_instant, rfc3339_same_instant_iff (F23: the text '
+             'denotes the input instant IFF the offset is a whole number of minutes), '
+             'rfc3339_within_seconds_part, epoch_to_date_time_text; empty_in_empty_out, unparsable_is_error, '
+             'unparsable_strict_member_fails_record, lenient_or_parsable_record_delivered; '
+             'extracted_epoch_units',
+             'COMPARED on every run (correspondence): all four functions on ~8 000 generated calls '
+             '(check_case: RfcCase, LayoutCase, ToEpochCase, FromEpochCase, SchemaCase) - the model starts '
+             'from the abstract parse result the harness obtains from the same parser (times.SmartParse / '
+             "time.Parse) and from zone offsets supplied per case by Go's time package, and ends at the "
+             'projected output (wall reading, printed offset, number, member present / record failed)',
+             'NOT MODELLED (Go oracle / trusted): textual parsing and formatting (times.SmartParse pattern '
+             "table, time.Parse, time.Format, strconv), time.Date's choice of offset for a wall reading "
+             '(enters as off_of_wall), the transform layer beyond ignore_error / empty members '
+             '(member_outcome, record_outcome); the oracle (same instant / same wall reading / exact Unix '
+             "time / Go's own RFC3339 text) is evaluated with time.Date, Time.In, Time.ZoneBounds, math/big"],
+ 'assumptions': ['minute_aligned (known finding F23) is not an assumption any more but characterised: '
+                 'rfc3339_same_instant_iff; outside it rfc3339_within_seconds_part holds and is checked '
+                 "against Go's own Format",
+                 'wall reading of the result within years 1..9999 (known finding F24: year 10000 is printed '
+                 'with five digits) - guard of the generators only',
                  'date_consistent: a zone-less reading bound to a zone keeps its reading except inside a '
-                 'forward clock change (time.Date normalises it) - generators start from instants, so such '
-                 'readings arise only in the dedicated gap cases',
-                 'explicit layouts with zone abbreviations (MST) are outside the guard: time.Parse gives '
-                 'unknown abbreviations offset 0']}
+                 'forward clock change (time.Date normalises it); hypothesis of the last clause of '
+                 'tz_logic_bind only',
+                 'zone abbreviations in explicit layouts mean what time.Parse makes of them in this process '
+                 '(offset 0 unless Local knows them) - the oracle follows the documented time.Parse reading'],
+ 'level_text': 'Coq theorems over a Gallina model of customfuncs/datetime.go whose arithmetic expressions, '
+               'unit strings and zone-step structure are re-extracted from the source on every run: exact '
+               'and invertible epoch conversions without int64 wrap for every instant of years 1..9999, '
+               'parseDateTime as a proved decision table for every zone behaviour, the RFC3339 text '
+               'characterised exactly (F23 as an iff); tied to the code by a correspondence check that '
+               'evaluates the model inside Coq on real calls of the four registered custom functions '
+               "(directly and through schemas) and by a Go-side oracle using Go's own time arithmetic.",
+ 'level_note': 'Trusted: Coq kernel/vm_compute, the Go harness and extractor, Go time/strconv and go-corelib '
+               'SmartParse for text <-> time value; zone behaviour is universally quantified in the '
+               'theorems; no axioms (Print Assumptions: closed).',
+ 'technique': 'machine-checked proof in Coq 8.16 (lia over Z with explicit int64 wrap-around, case analysis '
+              'of the decision table) + expressions/branch structure extracted from the source + '
+              'model/implementation correspondence'}
